@@ -162,6 +162,7 @@ type sent struct {
 	packet channeltypes.Packet
 	refund int64 // ERC-20 refunded so far
 	done   string
+	orphan bool // its tracking record was dropped by a genesis round trip while it was in flight
 }
 
 type env struct {
@@ -386,7 +387,7 @@ func (e *env) checkRecords(after string) {
 	cur := e.relSet()
 	live := map[string]bool{}
 	for _, x := range e.sents {
-		if x.evm && x.tok != "F" && x.done == "" {
+		if x.evm && x.tok != "F" && x.done == "" && !x.orphan {
 			k := e.relKey(x.l, x.seq)
 			live[k] = true
 			if !cur[k] {
@@ -1389,11 +1390,158 @@ func (e *env) settle(l int, seq uint64, mode string) {
 		}
 	}
 	_, ws := delta(map[string]int64{}, want)
-	if ds != ws {
+	if ds != ws && st.orphan {
+		// the transfer's record was dropped by a genesis round trip PLAYED IN THIS HISTORY (op `genesis`)
+		e.out.Count("genesis-op:orphan-refund:" + map[bool]string{true: "bank-form", false: "other"}[ds == fmt.Sprintf("bank:%s%+d", baseA, st.amt)])
+		e.violate("genesis-drops-relations", fmt.Sprintf("refund: after an export / import of the erc20 module's genesis an in-flight EVM-originated transfer of %d is refunded as [%s], expected [%s]: the tracking records are not part of the genesis state (%s, genesis played as an operation)", st.amt, ds, ws, clsTxt))
+	} else if ds != ws {
 		e.out.Violate(fmt.Sprintf("refund: transfer of %d settled by %s changed the sender's holdings by [%s], expected [%s] (%s)", st.amt, modeTxt, ds, ws, clsTxt))
 	}
 	if st.evm && st.tok == "A" {
 		st.refund += e.ercOf(e.ercBase, a) - h0["erc:base"]
+	}
+}
+
+// genesis: the chain is restarted from an exported genesis — the erc20 module's state is replaced by
+// InitGenesis(ExportGenesis()) with the REAL keeper functions on the live state (IBC core, bank, EVM state export and
+// import everything they hold; the harness leaves them as they are).  Transfers in flight whose record did not travel
+// are remembered as orphans; the model plays the same round trip (`genesisCtl`, carries = regenerated fact).
+func (e *env) genesis() {
+	s := e.s
+	before := e.relSet()
+	res := hx.Try(func() error {
+		gs := s.App.Erc20Keeper.ExportGenesis(s.Ctx)
+		store := s.Ctx.KVStore(s.App.GetKey(erc20types.StoreKey))
+		var keys [][]byte
+		it := store.Iterator(nil, nil)
+		for ; it.Valid(); it.Next() {
+			keys = append(keys, append([]byte{}, it.Key()...))
+		}
+		it.Close()
+		for _, k := range keys {
+			store.Delete(k)
+		}
+		s.App.Erc20Keeper.InitGenesis(s.Ctx, *gs)
+		return nil
+	})
+	if res != "ok" {
+		e.out.Violate("genesis: export / import of the erc20 module's genesis failed on a reachable state: " + firstWords(res))
+	}
+	after := e.relSet()
+	n := 0
+	for _, x := range e.sents {
+		if x.evm && x.tok != "F" && x.done == "" && before[e.relKey(x.l, x.seq)] && !after[e.relKey(x.l, x.seq)] {
+			x.orphan = true
+			n++
+		}
+	}
+	e.out.Emit("genesis", "ok rel="+e.rel())
+	e.out.Count(fmt.Sprintf("genesis-op:records-before=%d:dropped=%d", len(before), n))
+	e.out.Nontrivial(fmt.Sprintf("genesis|inflight=%v", n > 0))
+	e.checkLedger("genesis")
+}
+
+// denom: what do the transfer application and the middleware's hook make of the packet denomination
+// `transfer/channel-h1/…/transfer/channel-hn/<base>` arriving on local channel l — ANY number of hops.  One real relay of
+// an inbound packet of amount 1 to a hex account on a throw-away branch (when the path returns through the counterparty's
+// channel the escrow account is given the coin first, named with ibc-go's own functions); the credited coin is read off
+// the bank's `coin_received` event of the receiver, how it was credited off what precedes it (a `coinbase` mint or not),
+// the hook's belief off the middleware's `receive` event.  Denominations are named by the hop list they hash.
+func (e *env) denom(l int, base string, hops []int) {
+	s := e.s
+	ch := e.chans[l]
+	op := fmt.Sprintf("denom %d %s", l, base)
+	pd := base
+	for i := len(hops) - 1; i >= 0; i-- {
+		pd = fmt.Sprintf("%s/channel-%d/%s", port, hops[i], pd)
+	}
+	for _, h := range hops {
+		op += fmt.Sprintf(" %d", h)
+	}
+	// names: every suffix of (our channel :: hops) with the base
+	names := map[string]string{base: "native:" + base}
+	full := append([]int{l}, hops...)
+	for i := 0; i < len(full); i++ {
+		path, lbl := base, ""
+		for j := len(full) - 1; j >= i; j-- {
+			path = fmt.Sprintf("%s/channel-%d/%s", port, full[j], path)
+		}
+		for j := i; j < len(full); j++ {
+			if lbl != "" {
+				lbl += "."
+			}
+			lbl += strconv.Itoa(full[j])
+		}
+		names[transfertypes.ParseDenomTrace(path).IBCDenom()] = "ibc:" + lbl + ":" + base
+	}
+	name := func(d string) string {
+		if n, ok := names[d]; ok {
+			return n
+		}
+		return "unknown"
+	}
+	a := e.addr(4)
+	cctx, _ := s.Ctx.CacheContext()
+	returns := transfertypes.ReceiverChainIsSource(port, ch.cp, pd)
+	if returns {
+		un := pd[len(transfertypes.GetDenomPrefix(port, ch.cp)):]
+		d := un
+		if tr := transfertypes.ParseDenomTrace(un); !tr.IsNativeDenom() {
+			d = tr.IBCDenom()
+		}
+		coin := sdk.NewCoin(d, sdkmath.NewInt(1))
+		_ = hx.Try(func() error {
+			if err := s.App.BankKeeper.MintCoins(cctx, transfertypes.ModuleName, sdk.NewCoins(coin)); err != nil {
+				return err
+			}
+			if err := s.App.BankKeeper.SendCoinsFromModuleToAccount(cctx, transfertypes.ModuleName, transfertypes.GetEscrowAddress(port, ch.id), sdk.NewCoins(coin)); err != nil {
+				return err
+			}
+			s.App.IBCTransferKeeper.SetTotalEscrowForDenom(cctx, s.App.IBCTransferKeeper.GetTotalEscrowForDenom(cctx, d).Add(coin))
+			return nil
+		})
+	}
+	cctx = cctx.WithEventManager(sdk.NewEventManager())
+	data := transfertypes.NewFungibleTokenPacketData(pd, "1", remoteSender(0), a.Hex(), "")
+	packet := channeltypes.NewPacket(data.GetBytes(), 7_000_000, port, ch.cp, port, ch.id, clienttypes.NewHeight(100, 100000), 0)
+	mod, _ := s.App.IBCKeeper.Router.GetRoute(transfertypes.ModuleName)
+	ackS := "err"
+	res := hx.Try(func() error {
+		if ack := mod.OnRecvPacket(cctx, packet, nil); ack == nil || ack.Success() {
+			ackS = "ok"
+		}
+		return nil
+	})
+	app, how, hook := "unknown", "none", "unknown"
+	minted := false
+	recvBech := sdk.AccAddress(a.Bytes()).String()
+	for _, ev := range cctx.EventManager().Events() {
+		attr := map[string]string{}
+		for _, at := range ev.Attributes {
+			attr[at.Key] = at.Value
+		}
+		switch {
+		case ev.Type == "coinbase" && app == "unknown":
+			minted = true
+		case ev.Type == banktypes.EventTypeCoinReceived && app == "unknown" && attr[banktypes.AttributeKeyReceiver] == recvBech:
+			if cs, err := sdk.ParseCoinsNormalized(attr[sdk.AttributeKeyAmount]); err == nil && len(cs) == 1 {
+				app = name(cs[0].Denom)
+				how = map[bool]string{true: "mint", false: "unescrow"}[minted]
+			}
+		case strings.HasSuffix(ev.Type, ibcmwtypes.EventTypeReceive) && hook == "unknown":
+			if c, err := sdk.ParseCoinNormalized(attr[transfertypes.AttributeKeyAmount]); err == nil {
+				hook = name(c.Denom)
+			}
+		}
+	}
+	e.out.Emit(op, fmt.Sprintf("app=%s how=%s hook=%s", app, how, hook))
+	e.out.Count(fmt.Sprintf("denom-op:hops=%d:returns-home=%v:base-named-like-native=%v:ack=%s", len(hops), returns, base == fxtypes.DefaultDenom, ackS))
+	e.out.Nontrivial(fmt.Sprintf("denom|hops=%d|returns=%v|fx=%v", len(hops), returns, base == fxtypes.DefaultDenom))
+	if res != "ok" {
+		e.out.Violate(fmt.Sprintf("recv: the receive callback panicked on packet denomination %s: %s", pd, firstWords(res)))
+	}
+	if app != hook {
+		e.out.Violate(fmt.Sprintf("recv: the middleware took the received coin for `%s` while the transfer application credited `%s` (packet denom %s with %d hops on local channel %d / counterparty channel %d, ack=%s)", hook, app, pd, len(hops), ch.l, ch.r, ackS))
 	}
 }
 
@@ -1435,6 +1583,14 @@ func (e *env) exec(line string) {
 		e.settle(n(1), uint64(n(2)), f[3])
 	case len(f) == 3 && f[0] == "timeout":
 		e.settle(n(1), uint64(n(2)), "timeout")
+	case len(f) == 1 && f[0] == "genesis":
+		e.genesis()
+	case len(f) >= 3 && f[0] == "denom":
+		var hops []int
+		for i := 3; i < len(f); i++ {
+			hops = append(hops, n(i))
+		}
+		e.denom(n(1), f[2], hops)
 	default:
 		e.out.Emit(line, "bad-op")
 	}
@@ -1486,7 +1642,7 @@ func newEnv(t *testing.T, out *hx.Out, rng *rand.Rand, pending map[string]bool) 
 // end of history: every failed / timed-out EVM-originated aliased transfer refunded exactly once
 func (e *env) finish() {
 	for _, x := range e.sents {
-		if x.evm && x.tok == "A" && (x.done == "err" || x.done == "timeout") && x.refund != x.amt {
+		if x.evm && x.tok == "A" && (x.done == "err" || x.done == "timeout") && x.refund != x.amt && !x.orphan {
 			e.out.Violate(fmt.Sprintf("refund: total ERC-20 refund %d of a failed EVM-originated transfer of %d", x.refund, x.amt))
 		}
 		if x.evm && x.tok == "A" && x.done == "ok" && x.refund != 0 {
@@ -1536,8 +1692,30 @@ func (e *env) generate(nops int) {
 			}
 		}
 	}
+	genesisAt := -1
+	if rng.Intn(3) == 0 {
+		genesisAt = nops/3 + rng.Intn(nops/2) // one restart from an exported genesis, somewhere in the middle
+	}
+	bases := []string{fxtypes.DefaultDenom, fxtypes.DefaultDenom, natD, remoteV, remoteX, remoteA}
 	for j := 0; j < nops; j++ {
 		l := e.order[rng.Intn(len(e.order))]
+		if j == genesisAt {
+			// make sure something is in flight in half of the cases
+			if rng.Intn(2) == 0 {
+				e.send(l, 1+rng.Intn(3), "A", int64(1+rng.Intn(100)), true)
+			}
+			e.genesis()
+		}
+		if rng.Intn(12) == 0 {
+			// a denomination path of 0..5 hops, hops biased to the two ends of this channel and their neighbours
+			ch := e.chans[l]
+			cand := []int{ch.r, ch.r, ch.l, ch.r + 1, ch.l + 1, rng.Intn(20)}
+			var hops []int
+			for n := rng.Intn(6); n > 0; n-- {
+				hops = append(hops, cand[rng.Intn(len(cand))])
+			}
+			e.denom(l, bases[rng.Intn(len(bases))], hops)
+		}
 		switch r := rng.Intn(20); {
 		case r < 6:
 			amt := int64(1 + rng.Intn(300))
